@@ -722,7 +722,7 @@ class XsdGroup(XsdComponent, MutableSequence[ModelParticleType],
             for item in self.iter_model():
                 if isinstance(item, XsdGroup):
                     return False
-                elif item.min_occurs == 0 or item.is_restriction(other, False):
+                elif item.max_occurs == 0 or item.is_restriction(other, False):
                     min_occurs += item.min_occurs
                     if max_occurs is not None:
                         if item.max_occurs is None:
